@@ -28,7 +28,41 @@ def correspondences(tier, rng):
     def impl(x):
         d, c, e = x
         return [tuple(F(v) for v in p) for p in iup.iup_delta(list(d), list(c), list(e))]
-    out = [Corr("iup_delta", cases, impl, enc=enc)]
+    def spec_iup(deltas, coords, ends):
+        """the inferred deltas as the OpenType gvar text defines them, written independently of iup.py: per contour, per axis, an
+        untouched point takes its delta from the nearest touched points before and after it around the contour"""
+        out_ = list(deltas); start = 0; n_ = len(coords)
+        for end in list(ends) + [n_ - 4, n_ - 3, n_ - 2, n_ - 1]:          # the four phantom points are contours of their own
+            idx = list(range(start, end + 1)); start = end + 1
+            touched = [i for i in idx if deltas[i] is not None]
+            if not touched:
+                for i in idx: out_[i] = (F(0), F(0))
+                continue
+            if len(touched) == len(idx): continue
+            for i in idx:
+                if deltas[i] is not None: continue
+                before = [t for t in touched if t < i]; after = [t for t in touched if t > i]
+                p_ = before[-1] if before else touched[-1]; q_ = after[0] if after else touched[0]
+                res_ = []
+                for ax in (0, 1):
+                    c, c1, c2 = coords[i][ax], coords[p_][ax], coords[q_][ax]; d1, d2 = deltas[p_][ax], deltas[q_][ax]
+                    if c1 == c2: res_.append(d1 if d1 == d2 else F(0))
+                    else:
+                        if c1 > c2: c1, c2, d1, d2 = c2, c1, d2, d1
+                        if c <= c1: res_.append(d1)
+                        elif c >= c2: res_.append(d2)
+                        else: res_.append(d1 + (c - c1) * (d2 - d1) / (c2 - c1))
+                out_[i] = tuple(res_)
+        return out_
+    def oracle_iup(x):
+        d, c, e = x
+        got = [tuple(F(v) for v in p) for p in iup.iup_delta(list(d), list(c), list(e))]
+        want = [tuple(F(v) for v in p) for p in spec_iup(list(d), list(c), list(e))]
+        if got != want:
+            k_ = [i for i in range(len(got)) if got[i] != want[i]][0]
+            return "point %d: iup_delta gives %r, the specification %r (deltas %r coords %r ends %r)" % (k_, got[k_], want[k_], d, c, e)
+        return None
+    out = [Corr("iup_delta", cases, impl, enc=enc, oracle=oracle_iup)]
     # ---- delta-set index maps (HVAR / VVAR advance maps): entry format choice, packing and unpacking of the indices
     from fontTools.ttLib.tables import otTables as ot
     from fontTools.ttLib.tables.otBase import OTTableWriter, OTTableReader
